@@ -17,6 +17,8 @@ import (
 	"cosmossdk.io/math"
 	sdk "github.com/cosmos/cosmos-sdk/types"
 	"github.com/cosmos/cosmos-sdk/types/module"
+	"github.com/cosmos/cosmos-sdk/types/query"
+	"sort"
 
 	orbtypes "github.com/noble-assets/orbiter/v2/types"
 	adaptertypes "github.com/noble-assets/orbiter/v2/types/component/adapter"
@@ -150,10 +152,17 @@ func checkC17(tier string) *Report {
 		if len(n.Path) > 0 {
 			rep.Distinct(sig)
 		}
+		// Byte-identical stores imply identical behaviour (processing is a function of the stores). Differing stores
+		// are not a violation by themselves — an implementation may legitimately materialise a default on import —
+		// so in that case every OBSERVABLE of the module is compared on both chains: all queries (pause sets,
+		// parameters, every statistics listing and direct lookup) in addition to the probes below.
 		if a, b := w.StoreKeyOf(ctx, "orbiter"), w.StoreKeyOf(re, "orbiter"); a != b {
-			rep.Violate(Violation{Kind: "reimported-store-differs", Sig: sig, Replay: replay,
-				What: fmt.Sprintf("after [%s] the re-initialised orbiter store differs from the original: %v", sig, w.DiffStores(ctx, re))})
-			return
+			rep.Outcome("reimported-store-bytes-differ(observables compared)")
+			if oa, ob := w.observables(ctx), w.observables(re); oa != ob {
+				rep.Violate(Violation{Kind: "reimported-chain-behaves-differently", Sig: sig + " ; queries", Replay: replay,
+					What: fmt.Sprintf("after [%s] the re-initialised chain answers queries differently (stores differ in %v): original %s / re-imported %s", sig, w.DiffStores(ctx, re), trunc(oa, 500), trunc(ob, 500))})
+				return
+			}
 		}
 		rep.Count("traces_validated_against_impl", 1)
 		// behaviour: the probe set and two accumulating transfers give identical acks and final exports
@@ -422,4 +431,48 @@ func c17JSONMutations(rep *Report, w *World) {
 		}
 		rep.Outcome("doc-accepted-and-initialised")
 	}
+}
+
+// observables: every query answer of the module in canonical text (used when stores are not byte-identical).
+func (w *World) observables(ctx sdk.Context) string {
+	var b strings.Builder
+	m, err := w.pauseSetsFromQueries(ctx)
+	fmt.Fprintf(&b, "pause=%s err=%v;", m, err)
+	for p := range supportedProtocols {
+		v, err := w.QIsProtocolPaused(ctx, p)
+		fmt.Fprintf(&b, "isP(%s)=%v,%v;", p, v, err)
+	}
+	as, err := w.QPausedActions(ctx)
+	sort.Strings(as)
+	fmt.Fprintf(&b, "actions=%v err=%v;", as, err)
+	for a := range supportedActions {
+		v, err := w.QIsActionPaused(ctx, a)
+		fmt.Fprintf(&b, "isA(%s)=%v,%v;", a, v, err)
+	}
+	pv, err := w.QParams(ctx)
+	fmt.Fprintf(&b, "params=%d err=%v;", pv, err)
+	for _, rpc := range []string{"DispatchedAmountsBySourceProtocolID", "DispatchedAmountsByDestinationProtocolID", "DispatchedCountsBySourceProtocolID", "DispatchedCountsByDestinationProtocolID"} {
+		for _, pn := range []string{"PROTOCOL_IBC", "PROTOCOL_CCTP", "PROTOCOL_HYPERLANE", "PROTOCOL_INTERNAL"} {
+			for _, rev := range []bool{false, true} {
+				rows, pr, err := w.qList(ctx, rpc, pn, &query.PageRequest{Limit: 1000, Reverse: rev, CountTotal: true})
+				var tot uint64
+				if pr != nil {
+					tot = pr.Total
+				}
+				fmt.Fprintf(&b, "%s(%s,%v)=%v total=%d err=%v;", rpc, pn, rev, rows, tot, err)
+			}
+		}
+	}
+	g := w.App.OrbiterKeeper.ExportGenesis(ctx).DispatcherGenesis
+	for i := range g.DispatchedAmounts {
+		e := &g.DispatchedAmounts[i]
+		in, out, found, err := w.QDispatchedAmount(ctx, protoNameOf[int(e.SourceId.ProtocolId)], e.SourceId.CounterpartyId, protoNameOf[int(e.DestinationId.ProtocolId)], e.DestinationId.CounterpartyId, e.Denom)
+		fmt.Fprintf(&b, "direct(%s)=%s/%s,%v,%v;", amtRowOf(e).key(), in, out, found, err)
+	}
+	for i := range g.DispatchedCounts {
+		e := &g.DispatchedCounts[i]
+		n, found, err := w.QDispatchedCount(ctx, protoNameOf[int(e.SourceId.ProtocolId)], e.SourceId.CounterpartyId, protoNameOf[int(e.DestinationId.ProtocolId)], e.DestinationId.CounterpartyId)
+		fmt.Fprintf(&b, "directc(%s)=%d,%v,%v;", cntRowOf(e).key(), n, found, err)
+	}
+	return b.String()
 }
